@@ -237,6 +237,7 @@ BinOp(op, a, b, st) ==
     ELSE IF a.t = "str" /\ op = "+" THEN R(VStr(a.s \o Show(b, st, FALSE)), st)
     ELSE IF b.t = "str" /\ op = "+" THEN R(VStr(Show(a, st, FALSE) \o b.s), st)
     ELSE IF a.t = "str" /\ b.t = "int" /\ op = "*" THEN R(VStr(Repeat(a.s, b.v)), st)
+    ELSE IF a.t = "int" /\ b.t = "str" /\ op = "*" THEN R(VStr(Repeat(b.s, a.v)), st)      \* `n * s`: the same text; the operands are still evaluated left to right
     ELSE R(VNil, FailWith(st, "type"))
 
 -----------------------------------------------------------------------------
